@@ -9,9 +9,12 @@ Part A (Mathlib matrices over an arbitrary field `K`): the algebra the code reli
 Part B (executable model of Model.lean, lists of rationals): the Gauss–Jordan inverse, the label
 merging that stands for `networkx.connected_components`, `permSearch`, the csr layout.
 
-What is NOT a theorem (checked at run time by the driver on every case instead): that the
-assembled block-diagonal / un-permuted result `X` of the model satisfies `A·X = I = X·A` as a
-whole; completeness of `inverse` (nonsingular ⇒ `some`).
+Second round: completeness of `inverse` (`gaussJordan_complete`, `gaussJordan_correct`) and the
+whole pipelines (`invertDiagonalBlocks_correct`, `invertPermuted_correct`) are theorems as well; the
+exact identity check `A·X = I = X·A` in the driver is kept as redundancy.
+What is still NOT a theorem: that the triple returned by `permSearch` satisfies the
+block-diagonality hypothesis of `invertPermuted_correct` in its positional form (it is proved in
+the membership form `permSearch_blocks_square`); completeness of the pipelines.
 -/
 import PorepyVerif.C37.Lemmas
 
@@ -177,6 +180,53 @@ theorem gaussJordan_correct_partial (A B : Mat) (h : inverse A = some B) :
   have hBA := toMatrix_mul_of_matMul A.length A B rfl hrows hBl hBr (inverse_left A B h)
   exact ⟨mul_eq_one_comm.mp hBA, hBA, Matrix.inv_eq_left_inv hBA⟩
 
+/-- `gaussJordan_complete`: completeness of the pivot search.  If the matrix is nonsingular, the
+    elimination never runs out of pivots (invariant: a vector orthogonal to all current rows is
+    orthogonal to all rows of `A`; without a pivot the vector `(heads of the finished rows, -1,
+    0, …)` is such a vector, so `A` would have a non-trivial kernel). -/
+theorem gaussJordan_complete (A : Mat) (hsq : isSquare A.length A = true)
+    (hdet : IsUnit (toMatrix A.length A).det) : ∃ B, inverse A = some B :=
+  inverse_complete_list A hsq (trivialKernel_of_det A.length A hsq hdet)
+
+/-- `gaussJordan_correct`: the full statement.  On square input the model's `np.linalg.inv`
+    answers `some` exactly for the nonsingular matrices, and then with the inverse. -/
+theorem gaussJordan_correct (A : Mat) (hsq : isSquare A.length A = true) :
+    ((∃ B, inverse A = some B) ↔ IsUnit (toMatrix A.length A).det) ∧
+    (∀ B, inverse A = some B → (toMatrix A.length A)⁻¹ = toMatrix A.length B) := by
+  refine ⟨⟨?_, gaussJordan_complete A hsq⟩, fun B h => (gaussJordan_correct_partial A B h).2.2⟩
+  rintro ⟨B, h⟩
+  exact Matrix.isUnit_det_of_right_inverse (gaussJordan_correct_partial A B h).1
+
+/-- `invertDiagonalBlocks_correct`: `invert_diagonal_blocks` as a whole.  If the matrix is block
+    diagonal with respect to the (positive) sizes, i.e. equals the block-diagonal assembly of its
+    own diagonal blocks, then the assembled result is the two-sided inverse (list level:
+    `X·A = I`; as Mathlib matrices also `A·X = 1` and `A⁻¹ = X`).  This is the identity the
+    driver re-checks at run time; it is now redundant. -/
+theorem invertDiagonalBlocks_correct (n : Nat) (A : Mat) (sizes : List Nat) (r : BlockInverse)
+    (hsq : isSquare n A = true) (hsz : (sizes.filter (· > 0)).sum = n)
+    (hbd : A = denseBlockDiag n 0 (extractBlocks A 0 (sizes.filter (· > 0))))
+    (h : invertDiagonalBlocks A sizes = some r) :
+    matMul n r.dense A = identity n ∧ toMatrix n A * toMatrix n r.dense = 1 ∧
+      (toMatrix n A)⁻¹ = toMatrix n r.dense := by
+  obtain ⟨hl, hw⟩ := (isSquare_iff n A).mp hsq
+  obtain ⟨hmul, hYl, hYw⟩ := invertDiagonalBlocks_left n A sizes r hl hsz hbd h
+  have hM := toMatrix_mul_of_matMul n A r.dense hl hw hYl hYw hmul
+  exact ⟨hmul, mul_eq_one_comm.mp hM, Matrix.inv_eq_left_inv hM⟩
+
+/-- `invertPermuted_correct`: `invert_permuted_block_diag_matrix` as a whole, for the executable
+    model.  If `row_perm`, `col_perm` are permutations and `A[row_perm, :][:, col_perm]` is block
+    diagonal with the given sizes, then whatever the model returns is the inverse of `A`. -/
+theorem invertPermuted_correct (n : Nat) (A : Mat) (rp cp sizes : List Nat) (X : Mat)
+    (hr : rp.Perm (List.range n)) (hc : cp.Perm (List.range n))
+    (hsz : (sizes.filter (· > 0)).sum = n)
+    (hbd : permute A rp cp
+      = denseBlockDiag n 0 (extractBlocks (permute A rp cp) 0 (sizes.filter (· > 0))))
+    (h : invertPermuted n A rp cp sizes = some X) :
+    toMatrix n X * toMatrix n A = 1 ∧ toMatrix n A * toMatrix n X = 1 ∧
+      (toMatrix n A)⁻¹ = toMatrix n X := by
+  have hM := invertPermuted_left n A rp cp sizes X hr hc hsz hbd h
+  exact ⟨hM, mul_eq_one_comm.mp hM, Matrix.inv_eq_left_inv hM⟩
+
 /-- every block handed to `invertAll` is inverted by `inverse` (so the two theorems above apply
     block by block); the results are square and have the sizes of the blocks -/
 theorem invertAll_correct (Bs Xs : List Mat) (h : invertAll Bs = some Xs) :
@@ -320,6 +370,29 @@ example : invertPermuted 3 [[0, 0, 4], [2, 1, 0], [1, 3, 0]] [0, 1, 2] [2, 0, 1]
 example : (match permSearch 3 3 [[0, 1, 0], [0, 0, 0], [0, 0, 1]] with
     | .ok r => some (r.rowPerm, r.colPerm, r.sizes)
     | .error _ => none) = some ([0, 2, 1], [1, 2, 1], [1, 1, 1]) := by decide +kernel
+
+/-- outside the property (singular input): zero row `i = 1` and zero column `j = 0 ≠ i` — every
+    component is square, the all-zero row is appended as the 1×1 block (1, 1), and `col_perm`
+    contains the column 1 twice while column 0 is missing -/
+example : (match permSearch 3 3 [[0, 1, 0], [0, 0, 0], [0, 0, 1]] with
+    | .ok r => decide (r.colPerm.Nodup) | .error _ => true) = false := by decide +kernel
+
+/-- non-vacuity of `invertPermuted_correct`: all hypotheses hold for the 3×3 example above -/
+example : (toMatrix 3 [[0, 0, 4], [2, 1, 0], [1, 3, 0]])⁻¹
+    = toMatrix 3 [[0, 3/5, -1/5], [0, -1/5, 2/5], [1/4, 0, 0]] :=
+  (invertPermuted_correct 3 [[0, 0, 4], [2, 1, 0], [1, 3, 0]] [0, 1, 2] [2, 0, 1] [1, 2] _
+    (by decide) (by decide) (by decide) (by decide +kernel) (by decide +kernel)).2.2
+
+/-- non-vacuity of `gaussJordan_complete`: a unit determinant -/
+example : ∃ B, inverse [[2, 1], [1, 3]] = some B :=
+  gaussJordan_complete [[2, 1], [1, 3]] (by decide) (by
+    have : (toMatrix 2 [[2, 1], [1, 3]]).det = 5 := by
+      rw [Matrix.det_fin_two]
+      simp [toMatrix, entry]
+      norm_num
+    show IsUnit (toMatrix 2 [[2, 1], [1, 3]]).det
+    rw [this]
+    exact isUnit_iff_ne_zero.mpr (by norm_num))
 
 /-- a component with more columns than rows: `AssertionError` -/
 example : (match permSearch 3 3 [[1, 1, 0], [0, 0, 0], [0, 0, 1]] with
